@@ -69,17 +69,21 @@ CLAIMED = {
         "technique": "Coq proof (reverse-order index lemmas over an identity-addressed document model) + differential correspondence",
     },
     "C17": {
-        "text": ("12 theorems (Coq, no axioms) over a model of the save sequences of yaml-set, yaml-merge and "
+        "text": ("20 theorems (Coq, no axioms) over a model of the save sequences of yaml-set, yaml-merge and "
                  "eyaml-rotate-keys as call lists on an abstract file system (Target/Bak/Output/Tmp x "
                  "Orig/Stale/New/Partial) and of every exit of main() before the single write: a run that ends "
-                 "before the write performs no call (file system identical, no .bak, no output); an existing "
-                 "--output is never replaced; with --backup the .bak is the pre-image; for every tool, start "
-                 "state and ANY single fault (every position, before/mid effect, OSError/AssertionError) target or "
-                 ".bak still holds the original - also as a general lemma over arbitrary call lists of the shape "
-                 "pre ++ Copy2 Target Bak :: post.  Tie: fault enumeration on the real main() functions "
-                 "in-process with the I/O calls wrapped in the command modules' namespaces: traces and surviving "
-                 "bytes compared with the model for every fault position.  OS/disk-level atomicity cannot be "
-                 "exhibited (Partial is the pessimistic stand-in)."),
+                 "before the write performs no call (file system identical, no .bak, no output); a document the "
+                 "serialiser refuses is found before any file is touched (yaml-set JSON, yaml-merge) or undone by "
+                 "yaml-set's restore path (dump failing with ANY Exception: the target holds the original bytes "
+                 "again); an existing --output is never replaced; with --backup the .bak is the pre-image; for "
+                 "every tool, start state and ANY single fault (every position, before/mid effect, OSError / "
+                 "AssertionError / other Exception / KeyboardInterrupt; plus a second fault inside the restore "
+                 "path) target or .bak still holds the original - also as a general lemma over arbitrary call "
+                 "lists of the shape pre ++ Copy2 Target Bak :: post.  Tie: fault enumeration on the real main() "
+                 "functions in-process with the I/O calls wrapped in the command modules' namespaces, including "
+                 "documents the real dumper / json refuse: traces and surviving bytes compared with the model for "
+                 "every fault position.  OS/disk-level atomicity cannot be exhibited (Partial is the pessimistic "
+                 "stand-in)."),
         "design_ref": "DESIGN.md section 4 (C17), docs/C17.md",
         "note": NOTE_COMMON,
         "technique": "Coq proof (fault-indexed run of a call-list model) + fault-injection correspondence on the real tools",
